@@ -218,11 +218,19 @@ def go_setstring0(s):
 
 
 def i_big_eq(ex, st, args, ctx):
-    return z3.simplify(args[0].v == args[1].v)
+    a, b = args[0], args[1]
+    if a.neg != b.neg:
+        return z3.simplify(z3.And(a.v == 0, b.v == 0))
+    return z3.simplify(a.v == b.v)
 
 
 def i_big_lt(ex, st, args, ctx):
-    return z3.simplify(z3.ULT(args[0].v, args[1].v))
+    a, b = args[0], args[1]
+    if a.neg and not b.neg:
+        return z3.simplify(z3.Or(a.v != 0, b.v != 0))
+    if b.neg and not a.neg:
+        return z3.BoolVal(False)
+    return z3.simplify(z3.ULT(b.v, a.v) if a.neg else z3.ULT(a.v, b.v))
 
 
 def i_be32(ex, st, args, ctx):
@@ -332,14 +340,26 @@ def big_SetUint64(ex, st, args, ctx):
     return args[0]
 
 
+def _signed64(ex, st, x, mk):
+    """a signed 64-bit value as a big.Int: non-negative -> magnitude; possibly negative -> fork on the sign"""
+    neg = z3.simplify(x < 0)
+    if z3.is_false(neg) or not ex.feasible(st, neg):
+        return mk(st, Big(z3.simplify(z3.ZeroExt(BIG - 64, x))))
+    if z3.is_true(neg) or not ex.feasible(st, z3.Not(neg)):
+        return mk(st, Big(z3.simplify(z3.ZeroExt(BIG - 64, -x)), neg=True))
+    return Forks([(neg, lambda s2: mk(s2, Big(z3.simplify(z3.ZeroExt(BIG - 64, -x)), neg=True)), None),
+                  (z3.Not(neg), lambda s2: mk(s2, Big(z3.simplify(z3.ZeroExt(BIG - 64, x)))), None)])
+
+
 def big_SetInt64(ex, st, args, ctx):
-    ex.store(st, args[0], Big(z3.simplify(z3.ZeroExt(BIG - 64, args[1]))))
-    return args[0]
+    def mk(s2, b):
+        ex.store(s2, args[0], b)
+        return args[0]
+    return _signed64(ex, st, args[1], mk)
 
 
 def big_NewInt(ex, st, args, ctx):
-    o = st.alloc(Big(z3.simplify(z3.ZeroExt(BIG - 64, args[0]))))
-    return Ptr(o)
+    return _signed64(ex, st, args[0], lambda s2, b: Ptr(s2.alloc(b)))
 
 
 def big_Set(ex, st, args, ctx):
@@ -348,8 +368,13 @@ def big_Set(ex, st, args, ctx):
 
 
 def big_Cmp(ex, st, args, ctx):
-    a, b = bigptr(ex, st, args[0]).v, bigptr(ex, st, args[1]).v
-    return z3.simplify(z3.If(z3.ULT(a, b), bvval(-1, 64), z3.If(a == b, bvval(0, 64), bvval(1, 64))))
+    A, B = bigptr(ex, st, args[0]), bigptr(ex, st, args[1])
+    a, b = A.v, B.v
+    if A.neg != B.neg:
+        both0 = z3.And(a == 0, b == 0)
+        return z3.simplify(z3.If(both0, bvval(0, 64), bvval(-1 if A.neg else 1, 64)))
+    lt, gt = (bvval(1, 64), bvval(-1, 64)) if A.neg else (bvval(-1, 64), bvval(1, 64))
+    return z3.simplify(z3.If(z3.ULT(a, b), lt, z3.If(a == b, bvval(0, 64), gt)))
 
 
 def big_BitLen(ex, st, args, ctx):
@@ -362,8 +387,15 @@ def big_BitLen(ex, st, args, ctx):
 
 def big_Text(ex, st, args, ctx):
     used('(*math/big.Int).Text(base): canonical digits of the value in that base (numeric-string model)')
-    x = bigptr(ex, st, args[0]).v
+    X = bigptr(ex, st, args[0])
+    x = X.v
     base = conc(args[1])
+    if X.neg:
+        if ex.must(st, x == 0):
+            return Str(num=('', base, x))
+        if not ex.must(st, x != 0):
+            raise Unsupported('Text of a big.Int that may be -0 or negative')
+        return Str(parts=[('lit', '-'), ('num', '', base, x)])
     return Str(num=('', base, x))
 
 
@@ -383,6 +415,21 @@ def big_SetString(ex, st, args, ctx):
     used('(*math/big.Int).SetString: accepts exactly the strings that denote a number in the base (0 = prefix-selected); opaque strings via uninterpreted isNumber/numval')
     s = args[1]
     base = conc(args[2])
+    if s.parts is not None:
+        ps = []
+        for p_ in s.parts:
+            if p_[0] == 'lit' and ps and ps[-1][0] == 'lit':
+                ps[-1] = ('lit', ps[-1][1] + p_[1])
+            elif not (p_[0] == 'lit' and p_[1] == ''):
+                ps.append(p_)
+        if len(ps) == 2 and ps[0][0] == 'lit' and ps[1][0] == 'num':
+            sign, (_, prefix, b, v) = ps[0][1], ps[1]
+            if sign in ('-', '+') and ((base == 0 and ((prefix == '0x' and b == 16) or (prefix == '' and b == 10))) or (base == b and prefix == '')):
+                ex.store(st, args[0], Big(v, neg=(sign == '-')))
+                return (args[0], z3.BoolVal(True))
+            if any(ch in '+-' for ch in sign[1:]) or (sign[:1] in '+-' and len(sign) > 1 and prefix == '' ) or sign.endswith(('-', '+')) and len(sign) > 1:
+                return (NIL, z3.BoolVal(False))       # a sign in the middle of the text is not a number
+        raise Unsupported('SetString of the composite text %r' % (s,))
     if s.num is not None:
         prefix, b, v = s.num
         if (base == 0 and ((prefix == '0x' and b == 16) or (prefix == '' and b == 10) or (prefix == '0b' and b == 2))) or (base == b and prefix == ''):
@@ -834,6 +881,7 @@ INTRINSICS.update({'verifIsNumber': i_is_number, 'verifNumVal': i_num_val})
 
 # ------------------------------------------------------------------------------------------ gnark (contract stubs, C07/C09/C12/C19)
 BN254_R = 21888242871839275222246405745257275088548364400416034343698204186575808495617
+BN254_Q = 21888242871839275222246405745257275088696311157297823662689037894645226208583      # base field of the curve (proof coordinates)
 
 
 def opq(tag, **kw):
@@ -974,7 +1022,7 @@ INTRINSICS.update({'verifStubPK': i_stub_key('pk'), 'verifStubVK': i_stub_key('v
                    'verifWitnessCount': i_witness_count, 'verifWitnessBig': i_witness_big, 'verifWitnessLen': i_witness_len})
 BASE.update({'github.com/consensys/gnark/frontend.NewWitness': frontend_NewWitness, 'github.com/consensys/gnark/frontend.PublicOnly': frontend_PublicOnly,
              'github.com/consensys/gnark/backend/groth16.Prove': groth16_Prove, 'github.com/consensys/gnark/backend/groth16.Verify': groth16_Verify,
-             '(github.com/consensys/gnark-crypto/ecc.ID).ScalarField': lambda ex, st, a, c: Opaque('field')})
+             '(github.com/consensys/gnark-crypto/ecc.ID).ScalarField': lambda ex, st, a, c: Ptr(st.alloc(Big(bvval(BN254_R, BIG))))})
 
 
 def default_prefix_stubs():
@@ -1393,8 +1441,97 @@ BASE.update({'github.com/iden3/go-iden3-crypto/poseidon.Hash': poseidon_Hash})
 
 
 def big_Sign(ex, st, args, ctx):
-    x = bigptr(ex, st, args[0]).v
-    return z3.simplify(z3.If(x == 0, bvval(0, 64), bvval(1, 64)))
+    X = bigptr(ex, st, args[0])
+    return z3.simplify(z3.If(X.v == 0, bvval(0, 64), bvval(-1 if X.neg else 1, 64)))
+
+
+def big_IsUint64(ex, st, args, ctx):
+    X = bigptr(ex, st, args[0])
+    fits = z3.ULT(X.v, bvval(1 << 64, BIG))
+    return z3.simplify(z3.And(X.v == 0, fits) if X.neg else fits)
+
+
+def big_IsInt64(ex, st, args, ctx):
+    X = bigptr(ex, st, args[0])
+    return z3.simplify(z3.ULE(X.v, bvval(1 << 63, BIG)) if X.neg else z3.ULT(X.v, bvval(1 << 63, BIG)))
+
+
+def big_Uint64(ex, st, args, ctx):
+    used('(*math/big.Int).Uint64 / Int64: the low 64 bits of the magnitude (negated for negative values)')
+    return z3.simplify(z3.Extract(63, 0, bigptr(ex, st, args[0]).v))
+
+
+def big_Int64(ex, st, args, ctx):
+    X = bigptr(ex, st, args[0])
+    lo = z3.Extract(63, 0, X.v)
+    return z3.simplify(-lo if X.neg else lo)
+
+
+def big_Neg(ex, st, args, ctx):
+    X = bigptr(ex, st, args[1])
+    ex.store(st, args[0], Big(X.v, neg=not X.neg))
+    return args[0]
+
+
+def big_Abs(ex, st, args, ctx):
+    ex.store(st, args[0], Big(bigptr(ex, st, args[1]).v))
+    return args[0]
+
+
+def _fmt64(signed):
+    def f(ex, st, args, ctx):
+        used('strconv.FormatInt/FormatUint: canonical digits in the base, with a leading minus sign for negative values')
+        x, base = args[0], conc(args[1])
+        if base is None:
+            raise Unsupported('FormatInt with a symbolic base')
+        if not signed:
+            return Str(num=('', base, z3.simplify(z3.ZeroExt(BIG - 64, x))))
+        neg = z3.simplify(x < 0)
+        pos = lambda s2: Str(num=('', base, z3.simplify(z3.ZeroExt(BIG - 64, x))))
+        ng = lambda s2: Str(parts=[('lit', '-'), ('num', '', base, z3.simplify(z3.ZeroExt(BIG - 64, -x)))])
+        if z3.is_false(neg) or not ex.feasible(st, neg):
+            return pos(st)
+        if z3.is_true(neg) or not ex.feasible(st, z3.Not(neg)):
+            return ng(st)
+        return Forks([(neg, ng, None), (z3.Not(neg), pos, None)])
+    return f
+
+
+def strconv_ParseUint(ex, st, args, ctx):
+    used('strconv.ParseUint(s, base, bits): accepts exactly the unsigned numbers of the base (0 = prefix selected) that fit in the bit size')
+    s_, base, bits = args[0], conc(args[1]), conc(args[2]) or 64
+    err = lambda: Iface(-1, Opaque('error', msg=S('strconv.ParseUint: invalid syntax or out of range'), origin=ctx['pos']))
+    if s_.parts is not None:
+        return (bvval(0, 64), err())          # a text with a sign is not an unsigned number
+    if s_.num is not None:
+        prefix, b, v = s_.num
+        if not ((base == 0 and ((prefix == '0x' and b == 16) or (prefix == '' and b == 10) or (prefix == '0b' and b == 2))) or (base == b and prefix == '')):
+            raise Unsupported('ParseUint of base-%s digits as base %s' % (b, base))
+        fits = z3.simplify(z3.ULT(v, bvval(1 << bits, BIG)))
+        return Forks([(fits, (z3.simplify(z3.Extract(63, 0, v)), NIL), None), (z3.Not(fits), lambda s2: (bvval((1 << bits) - 1, 64), err()), None)])
+    zs = z3.simplify(s_.z)
+    if z3.is_string_value(zs) and base == 0:
+        t = zs.as_string()
+        val = go_setstring0(t) if t[:1] not in ('+', '-') else None
+        if val is None or val >= (1 << bits):
+            return (bvval(0, 64), err())
+        return (bvval(val, 64), NIL)
+    isu = uf(ex, 'isUint%d_base%d' % (bits, base), z3.StringSort(), z3.BoolSort())
+    isn = uf(ex, 'isNumber_base%d' % base, z3.StringSort(), z3.BoolSort())
+    nv = uf(ex, 'numval_base%d' % base, z3.StringSort(), z3.BitVecSort(BIG))
+    ok = isu(s_.z)
+
+    def good(s2):
+        # an unsigned number that fits is in particular a number, with the same value
+        s2.pc.append(z3.And(isn(s_.z), z3.ULT(nv(s_.z), bvval(1 << bits, BIG))))
+        return (z3.Extract(63, 0, nv(s_.z)), NIL)
+    return Forks([(ok, good, None), (z3.Not(ok), lambda s2: (bvval(0, 64), err()), None)])
+
+
+BASE.update({'(*math/big.Int).IsUint64': big_IsUint64, '(*math/big.Int).IsInt64': big_IsInt64, '(*math/big.Int).Uint64': big_Uint64, '(*math/big.Int).Int64': big_Int64,
+             '(*math/big.Int).Neg': big_Neg, '(*math/big.Int).Abs': big_Abs, 'strconv.FormatInt': _fmt64(True), 'strconv.FormatUint': _fmt64(False), 'strconv.ParseUint': strconv_ParseUint,
+             'time.Now': lambda ex, st, a, c: Opaque('time'), 'time.Since': lambda ex, st, a, c: bvval(0, 64),
+             '(github.com/consensys/gnark-crypto/ecc.ID).BaseField': lambda ex, st, a, c: Ptr(st.alloc(Big(bvval(BN254_Q, BIG))))})
 
 
 BASE.update({'(*math/big.Int).Sign': big_Sign})
